@@ -62,7 +62,14 @@ type Node struct {
 	up        bool
 	mnet      *memberlist.MockNetwork
 	gen       int
-	abandoned int // replication managers whose Close did not return in bounded time (see closeRepl)
+	announced []announcement // every applied-index announcement of this node's state machines (follower nodes)
+	abandoned int            // replication managers whose Close did not return in bounded time (see closeRepl)
+}
+
+type announcement struct {
+	table string
+	rev   uint64
+	at    time.Time
 }
 
 func raftAddr(cluster string, id uint64) string {
@@ -133,7 +140,13 @@ func (n *Node) start() error {
 	if c.Cluster == "F" {
 		n.queue = storage.NewNotificationQueue()
 		go n.queue.Run()
-		scfg.Table.AppliedIndexListener = n.queue.Notify
+		// the harness listens in: what the node's state machines announce, and when (C11 in situ needs to tell
+		// "applied but never announced" from "announced before the caller had queued up")
+		q := n.queue
+		scfg.Table.AppliedIndexListener = func(table string, rev uint64) {
+			n.announced = append(n.announced, announcement{table: table, rev: rev, at: time.Now()})
+			q.Notify(table, rev)
+		}
 	}
 	e, err := storage.New(scfg)
 	cluster.VerifMemberlist = nil
